@@ -1,5 +1,4 @@
 package main
 
 func runCoord(in, out string)        {}
-func runRTT(in, out string)          {}
 func runHandler(in, out, dir string) {}
